@@ -485,7 +485,8 @@ class Escape:
                 continue
             if not isinstance(p.value, ast.Name):
                 return False
-            if not any(isinstance(e.node, ast.Compare) and e.kind == 'cond' and e.val and norm(e.node) == f'{p.value.id} in {coll}' for e in p.events):
+            if not any(isinstance(e.node, ast.Compare) and e.kind == 'cond' and ((e.val and norm(e.node) == f'{p.value.id} in {coll}')
+                                                                                 or (not e.val and norm(e.node) == f'{p.value.id} not in {coll}')) for e in p.events):
                 return False
         return True
 
